@@ -78,7 +78,10 @@ def shard(i, n, args):
     tier = args[0]
     seed = common.seed()
     mm, py = ctx.load()
-    res = {"edits": 0, "judged": 0, "still_valid": 0, "lossy_bases": 0, "bases": 0, "failures": {}, "samples": [], "by_kind": {}, "sites": 0}
+    from .jschema import SecondOpinion
+
+    so = SecondOpinion(mm)
+    res = {"second_opinion": 0, "second_opinion_disagreements": [], "edits": 0, "judged": 0, "still_valid": 0, "lossy_bases": 0, "bases": 0, "failures": {}, "samples": [], "by_kind": {}, "sites": 0}
     fails = res["failures"]
     sites_seen = set()
 
@@ -102,11 +105,20 @@ def shard(i, n, args):
                 continue
             res["bases"] += 1
             r = rng_for(seed, "C11", root.label, lab)
+            if res["bases"] % 4 == 0:  # oracle guard: independent JSON-Schema opinion on the valid base
+                res["second_opinion"] += 1
+                if not so.valid(j, root.t):
+                    res["second_opinion_disagreements"].append({"root": root.label, "json": j, "mm": True, "schema": False})
             sites = []
             edit_sites(mm, tree, root.t, [], sites, r)
             for path, kind, v in sites:
                 res["edits"] += 1
                 jp = apply_edit(j, path, kind, v)
+                if res["edits"] % 16 == 0:
+                    res["second_opinion"] += 1
+                    a, b = mm.valid(jp, root.t, strict=True), so.valid(jp, root.t)
+                    if a is not b and len(res["second_opinion_disagreements"]) < 5:
+                        res["second_opinion_disagreements"].append({"root": root.label, "json": jp, "mm": a, "schema": b})
                 if mm.valid(jp, root.t, strict=False):  # precondition (b): still valid under lenient reading
                     res["still_valid"] += 1
                     continue
@@ -140,6 +152,9 @@ def main(tier):
         for k, v in r["by_kind"].items():
             by[k] = by.get(k, 0) + v
         samples += r["samples"][:1]
+    dis = [d for r in results for d in r["second_opinion_disagreements"]]
+    if dis:
+        rep.inconc("oracle self-disagreement (mm.valid vs derived JSON-Schema) on %d values, e.g. %s" % (len(dis), json.dumps(dis[0])[:400]))
     judged = sum(r["judged"] for r in results)
     if not judged:
         rep.inconc("no deviation judged")
@@ -152,6 +167,8 @@ def main(tier):
         "bases": sum(r["bases"] for r in results),
         "bases_skipped_lossy": sum(r["lossy_bases"] for r in results),
         "judged_by_edit": by,
+        "oracle_second_opinions_json_schema": sum(r["second_opinion"] for r in results),
+        "oracle_disagreements": len(dis),
         "samples": samples or [{}],
     }
     return rep.finish(cov, assumptions=["any exception counts as rejection"])
